@@ -166,23 +166,50 @@ theorem parseElemsWith_rel (f g : Bytes → Except Err (AVal × Bytes)) (h : ∀
     rel_step (parseElemsWith f n r) with (parseElemsWith_rel f g h n r)
     rfl
 
+theorem Rel.ite {α} {c : Prop} [Decidable c] {a a' b b' : Except Err α} (h1 : Rel a b) (h2 : Rel a' b') :
+    Rel (if c then a else a') (if c then b else b') := by
+  split <;> assumption
+
+theorem anyInner_rel (d : Dialect) (tl : TL) (inner : Bytes) : Rel (anyInner d false tl inner) (anyInner d true tl inner) := by
+  unfold anyInner
+  repeat' (apply Rel.ite)
+  all_goals first
+    | exact Rel.map _ (parsePrintableString_rel _)
+    | exact Rel.map _ (parseInt64_rel _)
+    | exact Rel.map _ (parseOID_rel d _)
+    | exact Rel.refl _
+
+theorem parseAny_rel (d : Dialect) (bs : Bytes) : Rel (parseAny d false bs) (parseAny d true bs) := by
+  unfold parseAny
+  cases parseTagLen d bs with
+  | error e => exact Or.inl ⟨e, rfl⟩
+  | ok x =>
+    obtain ⟨tl, r⟩ := x
+    dsimp only
+    split
+    · exact Or.inl ⟨_, rfl⟩
+    · rel_step (anyInner d false tl (r.take tl.len)) with (anyInner_rel d tl (r.take tl.len))
+      rfl
+
 theorem fieldShell_rel (d : Dialect) (t : ATy) (p : FP) (bs : Bytes) (k1 k2 : TL → Nat → Bytes → Bytes → Except Err AVal)
     (hk : ∀ tl utag inner consumed, Rel (k1 tl utag inner consumed) (k2 tl utag inner consumed)) :
     Rel (fieldShell d .strict t p bs k1) (fieldShell d .lax t p bs k2) := by
   unfold fieldShell
-  simp only [isCanon_strict, isCanon_lax, Bool.false_and, Bool.false_eq_true, if_false, forMode_strict, forMode_lax]
+  simp only [isCanon_strict, isCanon_lax, isLax_strict, isLax_lax, Bool.false_and, Bool.false_eq_true, if_false, forMode_strict, forMode_lax]
   split
   · exact Rel.refl _
-  · cases header d t p bs with
-    | error e => exact Or.inl ⟨e, rfl⟩
-    | ok h =>
-      cases h with
-      | absent => rfl
-      | flagSet rest => rfl
-      | body tl utag inner rest consumed outer =>
-        simp only []
-        rel_step (k1 tl utag inner consumed) with (hk tl utag inner consumed)
-        rfl
+  · split
+    · exact parseAny_rel d bs
+    · cases header d t p bs with
+      | error e => exact Or.inl ⟨e, rfl⟩
+      | ok h =>
+        cases h with
+        | absent => rfl
+        | flagSet rest => rfl
+        | body tl utag inner rest consumed outer =>
+          simp only []
+          rel_step (k1 tl utag inner consumed) with (hk tl utag inner consumed)
+          rfl
 
 mutual
 theorem parseField_rel (d : Dialect) : ∀ (t : ATy) (p : FP) (bs : Bytes),
@@ -199,9 +226,11 @@ theorem parseField_rel (d : Dialect) : ∀ (t : ATy) (p : FP) (bs : Bytes),
     apply fieldShell_rel
     intro tl utag inner consumed
     simp only [isCanon_strict, isCanon_lax, Bool.false_and, Bool.false_eq_true, if_false, forMode_strict, forMode_lax]
-    cases countElems d (universalType e) (inner.length + 1) inner with
-    | error err => exact Or.inl ⟨err, rfl⟩
-    | ok n => exact Rel.map _ (parseElemsWith_rel _ _ (fun bs => parseField_rel d e {} bs) n inner)
+    split
+    · exact Or.inl ⟨_, rfl⟩
+    · cases countElems d (universalType e) (inner.length + 1) inner with
+      | error err => exact Or.inl ⟨err, rfl⟩
+      | ok n => exact Rel.map _ (parseElemsWith_rel _ _ (fun bs => parseField_rel d e {} bs) n inner)
   | .bool, p, bs => by simp only [parseField]; exact fieldShell_rel d _ p bs _ _ fun _ _ _ _ => parseLeaf_rel d _ p _ _ _ _
   | .int32, p, bs => by simp only [parseField]; exact fieldShell_rel d _ p bs _ _ fun _ _ _ _ => parseLeaf_rel d _ p _ _ _ _
   | .int64, p, bs => by simp only [parseField]; exact fieldShell_rel d _ p bs _ _ fun _ _ _ _ => parseLeaf_rel d _ p _ _ _ _
@@ -214,6 +243,7 @@ theorem parseField_rel (d : Dialect) : ∀ (t : ATy) (p : FP) (bs : Bytes),
   | .rawValue, p, bs => by simp only [parseField]; exact fieldShell_rel d _ p bs _ _ fun _ _ _ _ => parseLeaf_rel d _ p _ _ _ _
   | .flag, p, bs => by simp only [parseField]; exact fieldShell_rel d _ p bs _ _ fun _ _ _ _ => parseLeaf_rel d _ p _ _ _ _
   | .time, p, bs => by simp only [parseField]; exact fieldShell_rel d _ p bs _ _ fun _ _ _ _ => parseLeaf_rel d _ p _ _ _ _
+  | .any, p, bs => by simp only [parseField]; exact fieldShell_rel d _ p bs _ _ fun _ _ _ _ => parseLeaf_rel d _ p _ _ _ _
 theorem parseFields_rel (d : Dialect) : ∀ (fs : AFields) (bs : Bytes),
     Rel (parseFields d .strict fs bs) (parseFields d .lax fs bs)
   | .nil, bs => by simp only [parseFields]; rfl
